@@ -142,7 +142,8 @@ def run_case(text: str, cfg: dict):
             raw_out.append([idx, getattr(code, "name", None), getattr(node, "lineno", None) or 0,
                             getattr(node, "col_offset", None) or 0, 1 if obey else 0])
         out = [[f["code"].name if "code" in f else None, f.get("lineno") or 0, f.get("col_offset") or 0] for f in res]
-        return {"out": out, "raw": raw_out, "new_text": new_text, "error": None, "applied": V.applied}
+        desc = [str(f.get("description", "")) for f in res]
+        return {"out": out, "raw": raw_out, "new_text": new_text, "error": None, "applied": V.applied, "desc": desc}
     except BaseException as ex:
         import traceback
 
